@@ -28,16 +28,18 @@ Inductive exn :=
 
 Inductive answer := AValue (v : Z) | ARaise (e : exn).
 
-(** Two further facts about the environment matter as soon as the worker LOGS while
-    log collection is on (both found by the matrix, see harness/props/c17.py):
-    - [log_backlog]: when the worker process exits in the normal way (it joins the feeder
-      thread of the log queue, i.e. flushes every record), more records are unflushed than
-      the pipe holds (64 KiB), so it needs the parent's listener to keep reading;
-    - [died_in_log_write]: the worker process died (os._exit, SIGTERM, SIGKILL) while its
-      feeder thread was inside a write to the log pipe, i.e. holding the queue's
-      cross-process write lock (which is then never released). *)
-Record world := mkWorld {
-  collect_logging : bool; ans : answer; log_backlog : bool; died_in_log_write : bool }.
+(** One further fact about the environment matters as soon as the worker LOGS while
+    log collection is on (found by the matrix, see harness/props/c17.py; recorded as
+    known finding `hang:log-listener-never-ends`):
+    [died_in_log_write]: the worker process died (os._exit, SIGTERM, SIGKILL) while its
+    feeder thread was inside a write to the log pipe, i.e. holding the queue's
+    cross-process write lock (which is then never released).
+    (Until commit 5c07918 a second fact mattered: a worker that ended normally with more
+    unflushed log records than the pipe holds never exited, because the synchronous
+    `with ProcessPoolExecutor` blocked the event loop the log listener needs.  The
+    shutdown now runs in a helper thread and the listener keeps reading; the matrix
+    keeps such workers as a regression guard.) *)
+Record world := mkWorld { collect_logging : bool; ans : answer; died_in_log_write : bool }.
 
 Definition process_died (w : world) : bool :=
   match ans w with ARaise EBrokenPool => true | _ => false end.
@@ -59,7 +61,7 @@ Inductive ev :=
 | VProcessKnown
 | VEventSet
 | VFutureAwaited
-| VExecutorShutdown    (* ProcessPoolExecutor.__exit__ = shutdown(wait=True): manager thread
+| VExecutorShutdown    (* executor.shutdown() (wait=True) in a helper thread, awaited: manager thread
                           joined, hence the worker process joined and its exit code set *)
 | VListenerSentinel    (* await to_thread(queue.put, None) *)
 | VListenerAwaited.    (* await task *)
@@ -79,11 +81,13 @@ Definition ev_eqb (a b : ev) : bool :=
 Definition run_prog : stmt :=
   Seq (AsyncWithExitStack
          (Seq (IfCollectLogging (Seq (Do EnterLogging) (Do WrapInitializer)))
-              (WithExecutor
-                 (Seq (Do GetLoop) (Seq (Do Submit) (Seq (Do GetProcess) (Seq (Do EventSet)
+         (Seq (Do NewExecutor) (Seq (Do GetLoop)
+              (TryFinally
+                 (Seq (Do Submit) (Seq (Do GetProcess) (Seq (Do EventSet)
                  (Seq (Do InitRet) (Seq (Do InitExc)
                  (Try (Do AwaitFuture)
-                      [(BrokenProcessPoolC, [Pass]); (BaseExceptionC, [StoreExc])]))))))))))
+                      [(BrokenProcessPoolC, [Pass]); (BaseExceptionC, [StoreExc])]))))))
+                 (Do ShutdownInThread))))))
       ReturnRetExc.
 
 Definition outer_prog : list outer :=
@@ -129,7 +133,8 @@ Definition st0 : st := mkSt [] None None 0%nat None.
 Definition emit (s : st) (l : list ev) : st := mkSt (trace s ++ l) (ret s) (exc s) (stack s) (cur s).
 
 Inductive hang_stage :=
-| HShutdown      (* blocked for ever inside ProcessPoolExecutor.__exit__ (the event loop is blocked too) *)
+| HShutdown      (* blocked for ever in the executor's shutdown (cannot happen in this model any more;
+                    kept so that such an observation is expressible and disagrees) *)
 | HListener.     (* `await task` in MultiprocessingLogging's finally never completes *)
 
 Inductive completion := CNormal | CRaise (e : exn) | CReturn | CHang (h : hang_stage).
@@ -138,7 +143,14 @@ Definition do_action (w : world) (a : action) (s : st) : completion * st :=
   match a with
   | EnterLogging => (CNormal, mkSt (trace s ++ logging_enter) (ret s) (exc s) (S (stack s)) (cur s))
   | WrapInitializer => (CNormal, emit s [VInitializerWrapped])
+  | NewExecutor => (CNormal, emit s [VExecutorCreated])
   | GetLoop => (CNormal, s)
+  | ShutdownInThread =>
+      (* `await loop.run_in_executor(None, executor.shutdown)`: shutdown(wait=True) runs in a thread
+         of the loop's default executor; the event loop -- hence the log listener -- keeps running,
+         so a worker that still has to flush log records can exit.  The manager thread joins the
+         worker process: exit code set. *)
+      (CNormal, emit s [VExecutorShutdown])
   | Submit => (CNormal, emit s [VSubmitted])
   | GetProcess => (CNormal, emit s [VProcessKnown])
   | EventSet => (CNormal, emit s [VEventSet])
@@ -211,17 +223,14 @@ Fixpoint exec (w : world) (p : stmt) (s : st) : completion * st :=
           | other => other
           end
       end
-  | WithExecutor b =>
-      (* ProcessPoolExecutor.__exit__: shutdown(wait=True); returns False.  It is a SYNCHRONOUS
-         `with` inside a coroutine: the event loop is blocked while the manager thread joins the
-         worker process, so the log listener cannot read; a worker that has to flush more log
-         records than the pipe holds never exits *)
-      match exec w b (emit s [VExecutorCreated]) with
+  | TryFinally b f =>
+      match exec w b s with
       | (CHang h, s') => (CHang h, s')
       | (c, s') =>
-          if collect_logging w && log_backlog w && negb (process_died w)
-          then (CHang HShutdown, s')
-          else (c, emit s' [VExecutorShutdown])
+          match exec w f s' with
+          | (CNormal, s'') => (c, s'')        (* the finally block ends normally: the body's completion stands *)
+          | other => other                    (* raised / returned / stuck inside the finally block *)
+          end
       end
   | Try b hs =>
       match exec w b s with
@@ -461,8 +470,8 @@ Definition opt_eqb (a b : option Z) : bool :=
   match a, b with Some x, Some y => Z.eqb x y | None, None => true | _, _ => false end.
 
 (** one case agrees with the model iff SOME world allowed for the scenario makes the
-    model produce exactly what was observed.  The two logging facts are free only when the
-    worker function emits log records and log collection is on. *)
+    model produce exactly what was observed.  The logging fact is free only when the worker
+    function emits log records and log collection is on. *)
 Definition agrees (sc : scenario) (o : obs) (w : world) : bool :=
   match await_handle w with
   | Yields x =>
@@ -481,11 +490,11 @@ Definition agrees (sc : scenario) (o : obs) (w : world) : bool :=
   | BadUnpack => Z.eqb (o_hang o) 0 && o_start_ok o && o_await_raised o
   end.
 
-Definition flag_choices (clog logs : bool) : list (bool * bool) :=
-  if clog && logs then [(false, false); (true, false); (false, true)] else [(false, false)].
+Definition flag_choices (clog logs : bool) : list bool :=
+  if clog && logs then [false; true] else [false].
 
 Definition worlds (clog logs : bool) (sc : scenario) : list world :=
-  flat_map (fun a => map (fun f => mkWorld clog a (fst f) (snd f)) (flag_choices clog logs)) (answers sc).
+  flat_map (fun a => map (fun f => mkWorld clog a f) (flag_choices clog logs)) (answers sc).
 
 (* (collect_logging, the worker function logs, scenario, observation) *)
 Definition case := (bool * bool * scenario * obs)%type.
